@@ -60,6 +60,7 @@ impl Property for C15 {
             ("negative_bridge".into(), 100),
             ("negative_bridge_below_rounding".into(), 30),
             ("models_without_any_construction_data".into(), 20),
+            ("models_without_any_wall".into(), 20),
             ("closed_models".into(), 100),
             ("nil_targets".into(), 100),
         ]
@@ -92,6 +93,11 @@ impl Property for C15 {
                     }
                 }
                 break_links(&mut rng, &mut m, p, &sel);
+                // no opaque elements at all (a model being assembled: windows and bridges first): every window's wall link is broken
+                if rng.chance(0.03) {
+                    m.walls.clear();
+                    obs.count("models_without_any_wall");
+                }
                 // the construction data base missing altogether (a geometry-only file): every construction link is broken
                 if rng.chance(0.03) {
                     m.cons = bemodel::ConsDb::default();
